@@ -33,6 +33,7 @@ class Imprecise(Exception):
 
 import os
 DEBUG_JOIN = os.environ.get("VERIF_DEBUG_JOIN")
+DEBUG_SITE = os.environ.get("VERIF_DEBUG_SITE")
 
 
 class ChangeFlag:
@@ -276,7 +277,7 @@ class Interp:
     def __init__(self, prog, K=48, max_depth=14):
         self.prog = prog
         self.K = K
-        self.K_ret = 8
+        self.K_ret = 3
         self.max_depth = max_depth
         self.infos = {}
         self.nsym = 0
@@ -399,6 +400,12 @@ class Interp:
         ev = {"kind": kind, "site": site, "ok": ok, "detail": detail}
         ev.update(kw)
         self.events.append(ev)
+        if DEBUG_SITE and not ok and str(site.get("line")) == DEBUG_SITE and st is not None:
+            print("  [state at failing site line %s: %s]" % (DEBUG_SITE, detail))
+            for f in st.facts:
+                print("      fact", f, ">= 0")
+            for k, v in st.cells.items():
+                print("      cell", k[-1] if not (isinstance(k, tuple) and k and k[0] == "h") else k, "=", repr(v)[:200])
 
     # ------------------------------------------------------------ types --
     def is_vec(self, ty):
@@ -1156,8 +1163,14 @@ class Interp:
             site = self.site(ctx, bi, t["msg"]) if self.recording else None
             if self.recording:
                 ops = [self.operand(ctx, st, o) for o in t["ops"]]
+                lemma = None
+                if not ok:
+                    lemma = self.length_sum_lemma(st, cond, exp)
+                    if lemma:
+                        ok = True
                 self.note("assert:" + t["msg"], site, ok,
-                          None if ok else self.explain(st, cond, exp, ops), st)
+                          None if ok else self.explain(st, cond, exp, ops), st, lemma=lemma,
+                          operands=[o.aff if isinstance(o, IntV) else None for o in ops])
             out = assume(st, cond, exp)
             return [(t["t"], s2) for s2 in out]
         if k == "call":
@@ -1167,6 +1180,31 @@ class Interp:
             return [(t["t"], s2) for s2 in outs if not s2.dead]
         self.imprecise.append("terminator %s in %s" % (k, ctx.body["path"]))
         return []
+
+    def is_len_sym(self, s):
+        inf = self.syminfo.get(s)
+        if inf is not None and inf[0] == "len":
+            return True
+        base = s.split("#")[0]
+        return base.startswith("len") or base.endswith(".len") or base.endswith(".slen") or base.endswith("chunklen")
+
+    def length_sum_lemma(self, st, cond, exp):
+        """lemma 5: a sum of lengths of distinct live byte buffers plus a small
+        constant cannot overflow usize (they all fit the address space)"""
+        if exp or cond is None or cond[0] != "ovf" or cond[3] != (1 << 64) - 1:
+            return None
+        e = cond[1]
+        if not e.t or e.c < 0 or e.c > (1 << 32):
+            return None
+        for s, k in e.t:
+            if k != 1 or not self.is_len_sym(s):
+                return None
+            lo, hi = st.lo_hi(s)
+            if lo < 0 or hi > ISIZE_MAX:
+                return None
+        if len(e.t) > 6:
+            return None
+        return "sum-of-lengths(%d)" % len(e.t)
 
     def explain(self, st, cond, exp, ops):
         def rng(v):
@@ -1376,14 +1414,14 @@ class Interp:
                     p = v.variants[ks[0]]
                     return (ks, tuple(shape(f, d + 1) for f in p.fields) if isinstance(p, StructV) else None)
                 return (ks,)
-            if isinstance(v, IntV) and v.aff.is_const():
+            if isinstance(v, IntV) and v.aff.is_const() and v.ty is not None and v.ty[0] == 1:
                 return ("c", v.aff.c)
             return None
         groups = {}
         for s, rv in outs:
             groups.setdefault(shape(rv), []).append((s, rv))
         res = []
-        key = ("h", "ret*%s" % (len(fid),))
+        key = ("ret", len(fid))
         for g in groups.values():
             if len(g) == 1:
                 res.append(g[0])
@@ -1402,6 +1440,8 @@ class Interp:
         states = [s for s in states if not s.dead]
         if len(states) <= self.K:
             return states
+        if DEBUG_JOIN:
+            print("   [limit: %d states at %s in %s]" % (len(states), tag, ctx.body["path"]))
         self.stats["joins"] += 1
         return [self.join_states(states, (ctx.fid, tag))]
 
@@ -1455,6 +1495,7 @@ class Interp:
         # forget dead locals of this frame
         for key in [k for k in head.cells if k[0] == ctx.fid and k[1] not in live]:
             del head.cells[key]
+        head.gc()
         saved = self.recording
         self.recording = False
         it = 0
@@ -1467,6 +1508,7 @@ class Interp:
                 for b in backs:
                     for key in [k for k in b.cells if k[0] == ctx.fid and k[1] not in live]:
                         del b.cells[key]
+                    b.gc_heap()
                 new, changed = self.widen(head, backs, (ctx.fid, h), it)
                 if not changed:
                     break
@@ -1507,6 +1549,10 @@ class Interp:
                     out.append((name + (("cap",),), v.cap))
             elif isinstance(v, SliceV):
                 out.append((name + (("slen",),), v.len))
+            elif isinstance(v, OpaqueV):
+                for k, x in v.attrs:
+                    if isinstance(x, Aff):
+                        out.append((name + (("attr", k),), x))
         for k, v in st.cells.items():
             if keys is not None and k not in keys:
                 continue
@@ -1554,6 +1600,8 @@ class Interp:
             lo_b, hi_b = new.range(b.aff)
             lo, hi = min(lo_a, lo_b), max(hi_a, hi_b)
             ty = a.ty or b.ty
+            if ty == (63, False):
+                lo, hi = max(lo, 0), min(hi, ISIZE_MAX)
             if a.aff == Aff.sym(pn):
                 # already the phi of this merge point: widen its bounds
                 olo, ohi = old.lo_hi(pn)
@@ -1590,7 +1638,7 @@ class Interp:
         def jaff(a, b, name):
             if a == b:
                 return a
-            r = jint(IntV(a, USIZE), IntV(b, USIZE), name)
+            r = jint(IntV(a, (63, False)), IntV(b, (63, False)), name)
             return r.aff
 
         def jv_(a, b, name):
@@ -1653,8 +1701,19 @@ class Interp:
             if a == b:
                 return a
             if isinstance(a, OpaqueV) and a.ty == b.ty:
-                common = tuple(x for x in a.attrs if x in b.attrs)
-                return OpaqueV(a.ty, common)
+                bd = dict(b.attrs)
+                common = []
+                for k, x in a.attrs:
+                    if k not in bd:
+                        continue
+                    y = bd[k]
+                    if x == y:
+                        common.append((k, x))
+                    elif isinstance(x, Aff) and isinstance(y, Aff):
+                        common.append((k, jaff(x, y, name + (("attr", k),))))
+                    elif isinstance(x, IntV) and isinstance(y, IntV):
+                        common.append((k, jint(x, y, name + (("attr", k),))))
+                return OpaqueV(a.ty, tuple(common))
             return TopV(None)
 
         def jv(a, b, name):
@@ -1729,7 +1788,7 @@ class Interp:
                         continue
                     if len(q.t) > 3:
                         continue
-                    for c in (q - pa, q - pa - 1, pa - q, pa - q - 1):
+                    for c in (q - pa, q - pa - 1, pa - q, pa - q - 1, q - pa + 1, pa - q + 1):
                         if c not in seen:
                             seen.add(c)
                             cands.append(c)
